@@ -53,11 +53,44 @@ type funcT struct {
 	Args  []argT `json:"args"`
 }
 
-// itemT places a declaration in the file: v<i>, f<i>, i<i> (the i-th init function).
+// lookT is a declaration that looks like an init function but is not one (it logs its label only
+// when main calls it, after main logged `main`):
+//
+//	vmethod  func (r rv) init() { say("rv_init") }            main: rv{}.init()
+//	pmethod  func (r *rp) init() { say("rp_init") }           main: (&rp{}).init()
+//	Init     func Init() { say("Init") }                      main: Init()
+//	init_    func init_() { say("init_") }                    main: init_()
+//	initX    func initX() { say("initX") }                    main: initX()
+//	local    func locinit() { init := 7; say("locinit", init) }   main: locinit()
+//	field    type rf struct{ init int }                       main: say("rf", rf{init: 1}.init)
+//
+// An imported package has no main: there they are never called.
+type lookT struct {
+	Kind string `json:"kind"`
+}
+
+var lookKinds = []string{"vmethod", "pmethod", "Init", "init_", "initX", "local", "field"}
+
+func (l lookT) label() string {
+	switch l.Kind {
+	case "vmethod":
+		return "rv_init"
+	case "pmethod":
+		return "rp_init"
+	case "local":
+		return "locinit"
+	case "field":
+		return "rf"
+	}
+	return l.Kind
+}
+
+// itemT places a declaration in the file: v<i>, f<i>, i<i> (the i-th init function), l<i> (the i-th look-alike).
 type caseT struct {
 	Vars    []varT   `json:"vars"`
 	Funcs   []funcT  `json:"funcs"`
 	Inits   int      `json:"inits"`
+	Looks   []lookT  `json:"looks,omitempty"`
 	Layout  []string `json:"layout"`             // e.g. ["v0","f0","i0","v1"]; variables appear in the order of Vars
 	Files   []int    `json:"files,omitempty"`    // dir mode: number of layout items per file (in order)
 	LateTwo bool     `json:"late_two,omitempty"` // the helper `two` is declared after everything else
@@ -249,8 +282,51 @@ func (c caseT) itemSrc(it string) string {
 		return funcSrc(c.Funcs[k])
 	case 'i':
 		return fmt.Sprintf("func init() { say(\"%sinit%d\") }", c.Prefix, k)
+	case 'l':
+		l := c.Looks[k]
+		lb := c.Prefix + l.label()
+		switch l.Kind {
+		case "vmethod":
+			return fmt.Sprintf("func (r rv) init() { say(%q) }", lb)
+		case "pmethod":
+			return fmt.Sprintf("func (r *rp) init() { say(%q) }", lb)
+		case "local":
+			return fmt.Sprintf("func locinit() { init := 7; say(%q, init) }", lb)
+		case "field":
+			return "type rf struct{ init int }"
+		}
+		return fmt.Sprintf("func %s() { say(%q) }", l.Kind, lb)
 	}
 	return ""
+}
+
+func (c caseT) hasLook(kind string) bool {
+	for _, l := range c.Looks {
+		if l.Kind == kind {
+			return true
+		}
+	}
+	return false
+}
+
+// afterCalls: the calls main makes after it logged `main`, and what they log.
+func (c caseT) afterCalls() (src []string, labels []string) {
+	for _, l := range c.Looks {
+		switch l.Kind {
+		case "vmethod":
+			src = append(src, "rv{}.init()")
+		case "pmethod":
+			src = append(src, "(&rp{}).init()")
+		case "local":
+			src = append(src, "locinit()")
+		case "field":
+			src = append(src, fmt.Sprintf("say(%q, rf{init: 1}.init)", c.Prefix+l.label()))
+		default:
+			src = append(src, l.Kind+"()")
+		}
+		labels = append(labels, c.Prefix+l.label())
+	}
+	return src, labels
 }
 
 func (c caseT) typesSrc() string {
@@ -261,7 +337,31 @@ func (c caseT) typesSrc() string {
 	if c.usesFieldKey() {
 		b.WriteString("type rec struct{ " + strings.Join(c.intNames(), ", ") + " int }\n\n")
 	}
+	if c.hasLook("vmethod") {
+		b.WriteString("type rv struct{ n int }\n\n")
+	}
+	if c.hasLook("pmethod") {
+		b.WriteString("type rp struct{ n int }\n\n")
+	}
 	return b.String()
+}
+
+// typesSexp: the same declarations for the protocol line.
+func (c caseT) typesSexp() []string {
+	var out []string
+	if c.hasStruct() {
+		out = append(out, common.L("type", "T", common.L("fx")))
+	}
+	if c.usesFieldKey() {
+		out = append(out, common.L("type", "rec", common.QL(c.intNames())))
+	}
+	if c.hasLook("vmethod") {
+		out = append(out, common.L("type", "rv", common.L("n")))
+	}
+	if c.hasLook("pmethod") {
+		out = append(out, common.L("type", "rp", common.L("n")))
+	}
+	return out
 }
 
 func (c caseT) mainSrc() string {
@@ -281,7 +381,12 @@ func (c caseT) mainSrc() string {
 	for _, im := range c.Imports {
 		b.WriteString(", " + im + ".X")
 	}
-	b.WriteString(")\n}\n")
+	b.WriteString(")\n")
+	calls, _ := c.afterCalls()
+	for _, cs := range calls {
+		b.WriteString("\t" + cs + "\n")
+	}
+	b.WriteString("}\n")
 	return b.String()
 }
 
@@ -293,90 +398,139 @@ func (c caseT) importsSrc() string {
 	return b.String()
 }
 
-// usesPkg reports whether the items it[lo:hi] mention an imported package.
+// itemsUse reports whether the items mention an imported package.
 func (c caseT) itemsUse(items []string, im string) bool {
 	for _, it := range items {
-		if strings.Contains(c.itemSrc(it), im+".X") {
+		if isItem(it) && strings.Contains(c.itemSrc(it), im+".X") {
 			return true
 		}
 	}
 	return false
 }
 
-// tree renders the program: mode "file" = one file main.go; mode "dir" = aa.go with the helpers and the types,
-// files b.go, c.go, … holding the declarations in order, zz.go with main.
-func (c caseT) tree() treeT {
-	t := treeT{}
-	for _, sp := range c.Subs {
-		t[sp.Path+"/"+sp.Path+".go"] = sp.source()
-	}
-	tail := "import \"fmt\"\n" + prelude + "\n" + c.typesSrc()
-	if c.Mode != "dir" {
-		var b strings.Builder
-		b.WriteString("package main\n\n" + c.importsSrc() + tail)
-		if !c.LateTwo {
-			b.WriteString(twoSrc + "\n")
-		}
-		for _, it := range c.Layout {
-			b.WriteString(c.itemSrc(it) + "\n\n")
-		}
-		b.WriteString(c.mainSrc())
-		if c.LateTwo {
-			b.WriteString("\n" + twoSrc)
-		}
-		t["main.go"] = b.String()
-		return t
-	}
+// fileT is one source file of a package: the packages it imports (besides fmt) and its
+// declarations as codes — "P" the helpers say, lg, lgf and the types (with `import "fmt"`),
+// "T" the helper two, "M" main, otherwise a layout item.
+type fileT struct {
+	Name    string
+	Imports []string
+	Codes   []string
+}
+
+func isItem(code string) bool { return code != "P" && code != "T" && code != "M" }
+
+// split cuts the layout into the pieces given by Files (what is left over is returned last).
+func (c caseT) split() (pieces [][]string, rest []string) {
 	k := 0
-	for i, n := range c.Files {
-		var b strings.Builder
-		b.WriteString("package main\n\n")
+	for _, n := range c.Files {
 		hi := k + n
 		if hi > len(c.Layout) {
 			hi = len(c.Layout)
 		}
-		for _, im := range c.Imports {
-			if c.itemsUse(c.Layout[k:hi], im) {
-				b.WriteString("import \"IMPORTROOT/" + im + "\"\n")
-			}
-		}
-		for ; k < hi; k++ {
-			b.WriteString(c.itemSrc(c.Layout[k]) + "\n\n")
-		}
-		t[string(rune('b'+i))+".go"] = b.String()
+		pieces = append(pieces, c.Layout[k:hi])
+		k = hi
 	}
-	// helpers and types in the first file, main (and whatever is left) in the last
-	first := "package main\n\n" + tail
-	if !c.LateTwo {
-		first += twoSrc
-	}
-	t["aa.go"] = first
-	var b strings.Builder
-	b.WriteString("package main\n\n" + c.importsSrc())
-	for ; k < len(c.Layout); k++ {
-		b.WriteString(c.itemSrc(c.Layout[k]) + "\n\n")
-	}
-	b.WriteString(c.mainSrc())
-	if c.LateTwo {
-		b.WriteString("\n" + twoSrc)
-	}
-	t["zz.go"] = b.String()
-	return t
+	return pieces, c.Layout[k:]
 }
 
-// source renders an imported package as one file.
-func (sp subT) source() string {
+func (c caseT) used(items []string, imports []string) []string {
+	var out []string
+	for _, im := range imports {
+		if c.itemsUse(items, im) {
+			out = append(out, im)
+		}
+	}
+	return out
+}
+
+// mainFiles lists the files of the main package in the order in which they are read (by name):
+// mode "file" = one file main.go; mode "dir" = aa.go with the helpers and the types, files b.go,
+// c.go, … holding the declarations in order, zz.go with what is left and main.
+func (c caseT) mainFiles() []fileT {
+	if c.Mode != "dir" {
+		f := fileT{Name: "main.go", Imports: c.Imports, Codes: []string{"P"}}
+		if !c.LateTwo {
+			f.Codes = append(f.Codes, "T")
+		}
+		f.Codes = append(f.Codes, c.Layout...)
+		f.Codes = append(f.Codes, "M")
+		if c.LateTwo {
+			f.Codes = append(f.Codes, "T")
+		}
+		return []fileT{f}
+	}
+	first := fileT{Name: "aa.go", Codes: []string{"P"}}
+	if !c.LateTwo {
+		first.Codes = append(first.Codes, "T")
+	}
+	out := []fileT{first}
+	pieces, rest := c.split()
+	for i, items := range pieces {
+		out = append(out, fileT{Name: string(rune('b'+i)) + ".go", Imports: c.used(items, c.Imports), Codes: items})
+	}
+	last := fileT{Name: "zz.go", Imports: c.Imports, Codes: append(append([]string{}, rest...), "M")}
+	if c.LateTwo {
+		last.Codes = append(last.Codes, "T")
+	}
+	return append(out, last)
+}
+
+// files lists the files of an imported package: one file, or (Body.Files set) aa.go with the
+// helpers and b.go, c.go, … with the declarations.
+func (sp subT) files() []fileT {
 	c := sp.Body
+	if len(c.Files) == 0 {
+		return []fileT{{Name: sp.Path + ".go", Imports: sp.Imports, Codes: append([]string{"P", "T"}, c.Layout...)}}
+	}
+	out := []fileT{{Name: "aa.go", Codes: []string{"P", "T"}}}
+	pieces, rest := c.split()
+	if len(pieces) > 0 {
+		pieces[len(pieces)-1] = append(append([]string{}, pieces[len(pieces)-1]...), rest...)
+	}
+	for i, items := range pieces {
+		out = append(out, fileT{Name: string(rune('b'+i)) + ".go", Imports: c.used(items, sp.Imports), Codes: items})
+	}
+	return out
+}
+
+// render gives the source text of a file.
+func (c caseT) render(pkg string, f fileT) string {
 	var b strings.Builder
-	b.WriteString("package " + sp.Path + "\n\n")
-	for _, im := range sp.Imports {
+	b.WriteString("package " + pkg + "\n\n")
+	for _, im := range f.Imports {
 		b.WriteString("import \"IMPORTROOT/" + im + "\"\n")
 	}
-	b.WriteString("import \"fmt\"\n" + prelude + "\n" + twoSrc + "\n" + c.typesSrc())
-	for _, it := range c.Layout {
-		b.WriteString(c.itemSrc(it) + "\n\n")
+	for i, code := range f.Codes {
+		switch code {
+		case "P":
+			b.WriteString("import \"fmt\"\n" + prelude + "\n" + c.typesSrc())
+		case "T":
+			if i > 0 && f.Codes[i-1] == "M" {
+				b.WriteString("\n")
+			}
+			b.WriteString(twoSrc + "\n")
+		case "M":
+			b.WriteString(c.mainSrc())
+		default:
+			b.WriteString(c.itemSrc(code) + "\n\n")
+		}
 	}
 	return b.String()
+}
+
+// tree renders the program: the files of the main package in the root, every imported package
+// in a directory of its own.
+func (c caseT) tree() treeT {
+	t := treeT{}
+	for _, sp := range c.Subs {
+		for _, f := range sp.files() {
+			t[sp.Path+"/"+f.Name] = sp.Body.render(sp.Path, f)
+		}
+	}
+	for _, f := range c.mainFiles() {
+		t[f.Name] = c.render("main", f)
+	}
+	return t
 }
 
 // forYaegi instantiates the placeholders for the interpreter.
@@ -444,59 +598,102 @@ func varSexp(v varT, late bool, px string) string {
 	return common.L(items...)
 }
 
-// pkgSexp renders VARS FUNCS INITS of one package.
-func (c caseT) pkgSexp() string {
-	var vs, fs, is []string
-	for _, v := range c.Vars {
-		vs = append(vs, varSexp(v, c.LateTwo, c.Prefix))
-	}
-	fs = append(fs, common.L("lg", "()"), common.L("two", common.L(id("lg", true))), common.L("lgf", "()"))
-	for _, f := range c.Funcs {
-		name := f.Name
-		if f.Meth {
-			name = "T." + name
+// funcSexp renders (func NAME RECV RTYPE TPARAMS PARAMS RESULTS LABEL IDS LOCALS).
+func funcSexp(name, recv, rtype string, params, results int, label, ids string, locals ...string) string {
+	return common.L("func", common.Q(name), recv, rtype, "0", fmt.Sprint(params), fmt.Sprint(results), common.Q(label), ids, common.QL(locals))
+}
+
+// declSexp renders the declarations a code stands for.
+func (c caseT) declSexp(code string) []string {
+	switch code {
+	case "P":
+		out := []string{
+			funcSexp("say", "n", "-", 1, 0, "-", "()"),
+			funcSexp("lg", "n", "-", 2, 1, "-", "()"),
+			funcSexp("lgf", "n", "-", 2, 1, "-", "()"),
 		}
-		fs = append(fs, common.L(common.Q(name), idsOf("", f.Args)))
+		return append(out, c.typesSexp()...)
+	case "T":
+		return []string{funcSexp("two", "n", "-", 2, 2, "-", common.L(id("lg", true)))}
+	case "M":
+		return []string{funcSexp("main", "n", "-", 0, 0, "main", "()")}
 	}
-	// init functions in layout order
-	for _, it := range c.Layout {
-		if it[0] == 'i' {
-			is = append(is, c.Prefix+"init"+it[1:])
+	var k int
+	fmt.Sscanf(code[1:], "%d", &k)
+	switch code[0] {
+	case 'v':
+		v := varSexp(c.Vars[k], c.LateTwo, c.Prefix)
+		return []string{"(var " + v[1:]}
+	case 'f':
+		f := c.Funcs[k]
+		switch {
+		case f.Meth:
+			return []string{funcSexp(f.Name, "v", "T", 0, 1, "-", idsOf("", f.Args))}
+		case f.Param:
+			return []string{funcSexp(f.Name, "n", "-", 1, 1, "-", idsOf("", f.Args))}
 		}
+		return []string{funcSexp(f.Name, "n", "-", 0, 1, "-", idsOf("", f.Args))}
+	case 'i':
+		return []string{funcSexp("init", "n", "-", 0, 0, c.Prefix+"init"+code[1:], "()")}
+	case 'l':
+		l := c.Looks[k]
+		lb := c.Prefix + l.label()
+		switch l.Kind {
+		case "vmethod":
+			return []string{funcSexp("init", "v", "rv", 0, 0, lb, "()")}
+		case "pmethod":
+			return []string{funcSexp("init", "p", "rp", 0, 0, lb, "()")}
+		case "local":
+			return []string{funcSexp("locinit", "n", "-", 0, 0, lb, "()", "init")}
+		case "field":
+			return []string{common.L("type", "rf", common.L("init"))}
+		}
+		return []string{funcSexp(l.Kind, "n", "-", 0, 0, lb, "()")}
 	}
-	return common.L(vs...) + " " + common.L(fs...) + " " + common.L(is...)
+	return nil
+}
+
+// filesSexp renders FILES: the declarations of every file, in source order.
+func (c caseT) filesSexp(files []fileT) string {
+	var fs []string
+	for _, f := range files {
+		var ds []string
+		for _, code := range f.Codes {
+			ds = append(ds, c.declSexp(code)...)
+		}
+		fs = append(fs, common.L(ds...))
+	}
+	return common.L(fs...)
 }
 
 // importOrder lists the import specifications of the main package in source order (directory
 // mode: file by file; a file imports what it uses, zz.go everything).
 func (c caseT) importOrder() []string {
-	if c.Mode != "dir" {
-		return c.Imports
-	}
 	var out []string
-	k := 0
-	for _, n := range c.Files {
-		hi := k + n
-		if hi > len(c.Layout) {
-			hi = len(c.Layout)
-		}
-		for _, im := range c.Imports {
-			if c.itemsUse(c.Layout[k:hi], im) {
-				out = append(out, im)
-			}
-		}
-		k = hi
+	for _, f := range c.mainFiles() {
+		out = append(out, f.Imports...)
 	}
-	return append(out, c.Imports...)
+	return out
+}
+
+// importOrder of an imported package: file by file.
+func (sp subT) importOrder() []string {
+	out := []string{}
+	for _, f := range sp.files() {
+		out = append(out, f.Imports...)
+	}
+	return out
 }
 
 func (c caseT) line() string {
+	_, after := c.afterCalls()
+	mainPart := c.filesSexp(c.mainFiles()) + " (main) " + common.QL(after)
 	if len(c.Subs) == 0 {
-		return "C15 pkg " + c.pkgSexp() + " (main)"
+		return "C15 pkg " + mainPart
 	}
 	var ss []string
 	for _, sp := range c.Subs {
-		ss = append(ss, common.L(common.Q(sp.Path), common.QL(sp.Imports), sp.Body.pkgSexp()))
+		ss = append(ss, common.L(common.Q(sp.Path), common.QL(sp.importOrder()), sp.Body.filesSexp(sp.files())))
 	}
-	return "C15 prog " + common.B(c.Mode == "dir") + " " + common.L(ss...) + " " + common.QL(c.importOrder()) + " " + c.pkgSexp() + " (main)"
+	return "C15 prog " + common.B(c.Mode == "dir") + " " + common.L(ss...) + " " + common.QL(c.importOrder()) + " " + mainPart
 }
